@@ -105,7 +105,7 @@ def exec_step(world: W.World, step: dict, ctx: seam.Ctx, fault=None, fp=False, e
     if ctx.trace_ws:
         out.ws = ctx.ws_ordinals
     out.canon = snapshot.canon(out.value)
-    if out.fault_site is not None or fp:
+    if out.fault_site is not None or fp or out.evict_site is not None:
         out.status = "faulted"  # the faulted step's own outcome is unconstrained
     return out
 
@@ -374,6 +374,8 @@ def gen_plan(rng: random.Random, cfg: dict, history: list[dict], config: str) ->
         if k == "fp_trap":
             plan["fp"].append(h["i"])
         elif k == "cache_evict":
+            if plan["exec"] == "preempt":
+                continue  # a mid-step eviction would also hit the other clients' in-flight operations
             plan["evict_mid"].append({"step": h["i"], "at": at, "which": rng.choice([1, 2, 3])})
         else:
             plan["faults"].append({"step": h["i"], "kind": k, "at": at})
@@ -522,7 +524,9 @@ def preempt_run(case: dict, plan: dict, golden: list[dict], stats: dict):
         done_steps.add(g["i"])
         return out
 
-    def ready_fn(g, _finished) -> bool:
+    def ready_fn(g, any_mid) -> bool:
+        if g["op"] == "$evict" and any_mid:
+            return False  # eviction models a fresh process / other first-use order: only between operations
         for s in g["args"]:
             if not world.has(s) and s in producer and producer[s] not in done_steps and producer[s] != g["i"]:
                 return False
